@@ -58,6 +58,7 @@ type FuncSpec struct {
 	File        string
 	Line        int
 	Modes       map[string]string
+	Uses        []*Clause // lemma instances assumed at entry: use lemma(args)
 }
 
 type SpecFunc struct {
@@ -67,6 +68,7 @@ type SpecFunc struct {
 	Body    Expr
 	Text    string
 	Rec     bool
+	Abstract bool
 }
 
 type TypeInv struct {
@@ -103,7 +105,7 @@ type Lemma struct {
 var keywords = map[string]bool{
 	"func": true, "spec": true, "requires": true, "ensures": true, "assigns": true, "loop": true,
 	"props": true, "pure": true, "trusted": true, "invariant": true, "global": true, "lemma": true,
-	"at": true, "mode": true, "sweep": true, "hyp": true, "concl": true, "package": true, "rec": true,
+	"at": true, "mode": true, "use": true, "sweep": true, "hyp": true, "concl": true, "package": true, "rec": true,
 }
 
 var funcHdr = regexp.MustCompile(`^func\s*(?:\(\s*(?:\w+\s+)?\*?\s*(\w+)\s*\))?\s*([\w$]+)\s*(.*)$`)
@@ -266,6 +268,18 @@ func (cs *Contracts) parseFile(path string) error {
 			if cur.Trusted == "" {
 				cur.Trusted = "assumed"
 			}
+		case "use":
+			if cur == nil {
+				return fail("use outside func")
+			}
+			e, err := parseExpr(rest)
+			if err != nil {
+				return fail("%v", err)
+			}
+			if _, ok := e.(*ECall); !ok {
+				return fail("use needs a lemma instance: use name(args)")
+			}
+			cur.Uses = append(cur.Uses, &Clause{Kind: "use", Text: rest, E: e, N: len(cur.Uses) + 1})
 		case "sweep":
 			if cur == nil {
 				return fail("sweep outside func")
@@ -485,6 +499,11 @@ func parseSpecFunc(s string) (*SpecFunc, error) {
 		rec = true
 		s = strings.TrimSpace(s[4:])
 	}
+	abstract := false
+	if strings.HasPrefix(s, "abstract ") {
+		abstract = true
+		s = strings.TrimSpace(s[9:]) + " = true"
+	}
 	hd, body, ok := strings.Cut(s, "=")
 	// careful: '=' may appear in '==' inside the body but the header has none
 	if !ok {
@@ -498,7 +517,7 @@ func parseSpecFunc(s string) (*SpecFunc, error) {
 	if !ok {
 		return nil, fmt.Errorf("bad spec header")
 	}
-	sf := &SpecFunc{Name: strings.TrimSpace(name), RetType: strings.TrimSpace(ret), Text: s, Rec: rec}
+	sf := &SpecFunc{Name: strings.TrimSpace(name), RetType: strings.TrimSpace(ret), Text: s, Rec: rec, Abstract: abstract}
 	for _, p := range splitTop(ps, ',') {
 		f := strings.Fields(p)
 		if len(f) == 2 {
